@@ -202,7 +202,8 @@ theorem C16_headline_host_build_authority_route (e : Env) (a : BuildArgs) (u : U
     `with_host` does NOT run the NFKC screen `_check_netloc`, and does not need to: WHATEVER the argument `h0` (ASCII or
     not, whatever its NFKC form, whatever the IDNA oracle answers), if `u.with_host(h0)` returns a URL then the raw host
     it stores consists of characters of the validated `_encode_host` result, contains none of '/', '?', '#', '@', ' ',
-    and contains ':' '[' ']' only when `h0` is an IP literal; so no part of the host can be re-read as userinfo, port,
+    and contains ':' '[' ']' only when `h0` is an IP literal (or, since fix 3fbf5b4, the IDNA answer of a non-ASCII `h0`
+    is one — it is then stored in canonical form); so no part of the host can be re-read as userinfo, port,
     path, query or fragment.  This is NOT the clause as written ("is rejected"): next theorem.
     Cites C16_with_host_needs_no_nfkc_screen. -/
 theorem C16_headline_with_host_needs_no_nfkc_screen (e : Env) (u u' : Url) (h0 : Str)
@@ -211,7 +212,8 @@ theorem C16_headline_with_host_needs_no_nfkc_screen (e : Env) (u u' : Url) (h0 :
       ∀ x, rawHost e u' = .ok (some x) →
         (∀ c ∈ x, c ∈ eh) ∧
         64 ∉ x ∧ 47 ∉ x ∧ 63 ∉ x ∧ 35 ∉ x ∧ 32 ∉ x ∧
-        ((∃ c ∈ x, c = 58 ∨ c = 91 ∨ c = 93) → ∃ ip, parseIP (partition 37 h0).1 = some ip) :=
+        ((∃ c ∈ x, c = 58 ∨ c = 91 ∨ c = 93) → (∃ ip, parseIP (partition 37 h0).1 = some ip) ∨
+          (isAscii h0 = false ∧ ∃ a ip, idnaEncode e.o h0 = .ok a ∧ parseIP (partition 37 a).1 = some ip)) :=
   C16_with_host_needs_no_nfkc_screen e u u' h0 hw
 
 /-- the NFKC clause AS WRITTEN ("is rejected") is an accident of the IDNA oracle on the `with_host` route, not a guarantee
